@@ -421,6 +421,9 @@ class Audit:
             tys = [self._ty(f, o) for o in ops]
             if kind == 'overflow:Add' and len(ops) == 2 and all(self._small(f, o) for o in ops):
                 return 'usize/u64 sum of two values each < 2^62 (constants, lengths, widened u32)'
+        if kind == 'overflow:Sub' and len(ops) == 2 and all(o[0] == 'cast' and o[2] in ('i32', 'i64', 'isize', 'i128') for o in ops) and \
+                all(self._unsigned_src(f, o[1]) for o in ops):
+            return 'signed difference of two values converted from unsigned quantities: both operands are >= 0, the difference fits'
         if kind == 'overflow:Sub' and len(ops) == 2:
             # a - c behind a dominating `a >= c'` (c' >= c) edge
             c = const_of(ops[1])
@@ -465,6 +468,26 @@ class Audit:
 
     def _ty(self, f, e):
         return None
+
+    def _unsigned_src(self, f, e, depth=0):
+        """expression of an unsigned integer type (so that `e as i32` is non-negative for every realistic magnitude)"""
+        uns = ('usize', 'u8', 'u16', 'u32', 'u64')
+        if depth > 5:
+            return False
+        k = e[0]
+        if k == 'const':
+            return e[3] in uns
+        if k == 'call' and e[4].get('name') in ('len', 'count', 'capacity'):
+            return True
+        if k in ('var', 'mvar') and isinstance(e[-1], int) and e[-1] < len(f.locals):
+            return f.locals[e[-1]]['ty'] in uns
+        if k == 'field' and e[2] == '0' and e[1][0] == 'binop':
+            return self._unsigned_src(f, e[1], depth + 1)
+        if k == 'binop' and e[1].replace('WithOverflow', '') in ('Add', 'Mul'):
+            return self._unsigned_src(f, e[2], depth + 1) and self._unsigned_src(f, e[3], depth + 1)
+        if k == 'cast' and e[2] in uns:
+            return self._unsigned_src(f, e[1], depth + 1)
+        return False
 
     def _small(self, f, e):
         k = e[0]
@@ -882,3 +905,15 @@ def is_param(f, e, which=None):
         if f.coroutine and f.parent == owner.path:
             names |= {n for n, l, t in params_of(owner)}
     return root in names and (which is None or root in which)
+
+
+def through_helper(e, depth=3):
+    """the expression a small crate-local helper returns, when e is a call to one (its parameters already substituted)"""
+    for _ in range(depth):
+        if e[0] in ('var', 'mvar') and mirq.init_of(e) is not e:
+            e = mirq.init_of(e)
+        elif e[0] == 'call' and e[4].get('inl') is not None:
+            e = e[4]['inl']
+        else:
+            break
+    return e
